@@ -82,4 +82,15 @@ PROPS = {
         "level_note": "Trusted: crypto primitives + sortition in the reference tally; simulator transport.",
         "design_ref": "DESIGN.md §4 C06",
     },
+    "C07": {
+        "engine": "agreesim", "level": "exploration", "budget": {"quick": 60, "thorough": 1200},
+        "rule": "one evaluation = one seeded run (crash-heavy fault mix); at drawn persistence instants a twin service is restored from a copy of the node's crash DB + ledger and fed exactly the stimuli the uncrashed node receives "
+                "(messages, timers by type, ledger flush/catch-up) for a drawn horizon of 20-400 stimuli; after each reaction the externally visible effects (emitted messages byte-for-byte, Ensure* round/digest/certificate, disconnects) must be equal; "
+                "non-trivial = >=1 compared twin reaction; distinct = distinct event-log digest",
+        "components": AGREE_COMPONENTS, "assumptions": AGREE_ASSUME + ["documented non-persisted state is normalised, not ignored wholesale: EnsureValidatedBlock vs EnsureBlock (validated-block cache), timer DURATIONS (credential-arrival history and timeout entropy) - the twin's timers are fired by type"],
+        "technique": "deterministic simulation: twin-run equality (restored-from-crash-DB service vs uncrashed service under identical stimuli)",
+        "level_text": "Behavioural restore equality: in every explored schedule a service restored from the crash DB reacts to the next 20-400 stimuli exactly as the uncrashed service does.",
+        "level_note": "Trusted: simulator seams; SQLite atomic commit. Covers states reachable in 3-6 node runs of 2-5 rounds.",
+        "design_ref": "DESIGN.md §4 C07",
+    },
 }
